@@ -260,10 +260,10 @@ pub fn prop_c02() -> Prop {
         id: "C02",
         scenarios: vec![
             Scenario { name: "targets", f: c02_targets, thorough_only: false,
-                bounds: "every shape of <=7 elements (quick) / <=9 (thorough) + 16 larger hand-written shapes (incl. already obscured children, repeated content, node-subject-node) + shapes with known values <=5 + every shape of <=4 (5) elements that already contains elided / encrypted / compressed elements x set / array / single-target entry points (with and without action) x target set = every subset of the shape's distinct element digests when it has <=7 (9) of them, else every set of <=2 (3) digests, optionally plus an absent digest x {removing, revealing} x {Elide, Encrypt, Compress} x every digest order.",
+                bounds: "every shape of <=7 elements (quick) / <=9 (thorough) + 21 larger hand-written shapes (incl. already obscured children, repeated content, node-subject-node) + shapes with known values <=5 + every shape of <=4 (5) elements that already contains elided / encrypted / compressed elements x set / array / single-target entry points (with and without action) x target set = every subset of the shape's distinct element digests when it has <=7 (9) of them, else every set of <=2 (3) digests, optionally plus an absent digest x {removing, revealing} x {Elide, Encrypt, Compress} x every digest order.",
                 api: API },
             Scenario { name: "two_pass", f: c02_two_pass, thorough_only: false,
-                bounds: "every shape of <=5 elements + 4 nested shapes (quick) / <=7 + 16 larger shapes (thorough) x first pass: any single position obscured with any action x second pass over the result: every target set of <=2 digests x {removing, revealing} x 3 actions x every digest order",
+                bounds: "every shape of <=5 elements + 4 nested shapes (quick) / <=7 + 21 larger shapes (thorough) x first pass: any single position obscured with any action x second pass over the result: every target set of <=2 digests x {removing, revealing} x 3 actions x every digest order",
                 api: API },
             Scenario { name: "whole", f: c02_whole, thorough_only: false,
                 bounds: "every shape of <=7 (9) elements with known values + larger shapes x {elide, encrypt_subject, encrypt/decrypt, compress, compress_subject} x every digest order",
